@@ -138,7 +138,7 @@ func (g *gen) bad(tm *typeModel) (map[string]any, string) {
 	shape := ""
 	opts := []string{"nokey", "nullkey"}
 	if len(k.Fields) > 1 {
-		opts = append(opts, "onemissing", "partialnull")
+		opts = append(opts, "onemissing", "partialnull", "leafobject", "leafobject")
 	}
 	if nested >= 0 {
 		opts = append(opts, "parentmissing", "parentnull", "parentscalar", "parentempty")
@@ -159,6 +159,13 @@ func (g *gen) bad(tm *typeModel) (map[string]any, string) {
 	case "partialnull":
 		g.fillKey(rep, k)
 		setPath(rep, k.Fields[g.rng.Intn(len(k.Fields))].Path, nil)
+	case "leafobject":
+		// one component of a compound key (any position, also not the last) carries a value its
+		// scalar cannot be read from: the representation is unusable and must fail as a whole, the
+		// resolver must not be called with a zero value in that component's place
+		g.fillKey(rep, k)
+		bad := []any{map[string]any{"x": json.Number("1")}, []any{json.Number("1"), json.Number("2")}}[g.rng.Intn(2)]
+		setPath(rep, k.Fields[g.rng.Intn(len(k.Fields))].Path, bad)
 	case "parentmissing":
 		g.fillKey(rep, k)
 		delete(rep, k.Fields[nested].Path[0])
